@@ -128,10 +128,10 @@ def tlc_trace(spec, checks, trace_path, workdir, timeout=1800):
     return r
 
 
-def tlc_behaviours(spec, cfg_text, workdir, env, num, depth, seed, timeout=900, exhaustive=False):
+def tlc_behaviours(spec, cfg_text, workdir, env, num, depth, seed, timeout=900, exhaustive=False, workers=1):
     """Run a Gen_* behaviour generator; returns (list of behaviour JSON strings, tlc result)."""
     extra = [] if exhaustive else ["-simulate", f"num={num}", "-depth", str(depth), "-seed", str(seed)]
-    r = tlc(spec, cfg_text, workdir, env=env, workers=1, timeout=timeout, extra=extra, deque=False)
+    r = tlc(spec, cfg_text, workdir, env=env, workers=workers, timeout=timeout, extra=extra, deque=False)
     out = r["out"]
     if "Error:" in out or ("Finished in" not in out):
         raise ToolError("behaviour generation failed (specification error):\n" + out[-3000:])
@@ -222,6 +222,22 @@ class Run:
         and continue with the rest so that the whole trace is examined."""
         events = read_trace(trace_path)
         scs = scenarios(events)
+        # A panic inside the library is data: it is a violation of C37 (reported by the C37 check,
+        # which runs every family).  For any other property the scenario is cut just before the
+        # panicking event so that everything up to it is still validated.
+        cut = 0
+        for k, sc in enumerate(scs):
+            for i, e in enumerate(sc):
+                if is_panic(e):
+                    if self.pid == "C37":
+                        self.violation(sc, f"{label}: event #{i+1} ({e.get('ev')}) of scenario {sc[0].get('scn')} panicked: {e.get('res')}",
+                                       {"checks": ["panic"], "event": e, "scenario": sc, "index": i})
+                    scs[k] = sc[:i]
+                    cut += 1
+                    break
+        if cut:
+            self.cov.setdefault("scenarios_cut_at_panic", 0)
+            self.cov["scenarios_cut_at_panic"] += cut
         total_sc = len(scs)
         total_ev = len(events)
         accepted_sc = 0
@@ -288,6 +304,13 @@ class Run:
         log(f"[ok] {self.pid} {self.tier}: states={self.cov['states']} traces={self.cov['traces_validated_against_impl']} "
             f"nontrivial={self.cov['distinct_nontrivial']} wall={ev['wall_s']}s")
         return 0
+
+
+def is_panic(e):
+    r = str(e.get('res', ''))
+    if r.startswith('panic') or r.startswith('obs-panic'):
+        return True
+    return False
 
 
 def load_known(pid):
